@@ -34,6 +34,7 @@ PARTS = {
     "C09": [("execsim", 700, 1.0)],
     "C06": [("execsim", 160, 1.0)],
     "C14": [("execsim", 700, 1.0)],
+    "C19": [("execsim", 900, 1.0)],
     "C11": [("triesim", 6000, 1.0)],
     "C03": [("signersim", 1200, 0.5), ("csim", 120, 0.5)],
 }
@@ -63,7 +64,7 @@ STUB = {
 
 
 # evidence and replay files of a run against a scratch copy of the repository (VERIF_REPO) go elsewhere
-OUT = os.environ.get("VERIF_OUT", VERIF)
+OUT = os.environ.get("VERIF_OUTDIR", VERIF)
 
 def load_known():
     p = os.path.join(VERIF, "known_findings.json")
@@ -474,3 +475,32 @@ def capture(args):
         return 0
     finally:
         drv.cleanup(s)
+
+
+def selftest(args):
+    """verif selftest <PROP> [runs]: the same runs in fresh processes at GOMAXPROCS 1, 4, 16 and 1 again;
+    any difference in event-log or trace hash is a determinism failure (exit 2)."""
+    prop = args[0]
+    n = int(args[1]) if len(args) > 1 else 40
+    seed = default_seed(prop, "quick")
+    s = drv.prepare("selftest-%s-%d" % (prop, os.getpid()))
+    report = dict(property=prop, runs=n, seed=seed, engines={})
+    bad = 0
+    try:
+        for (engine, _, _) in PARTS[prop]:
+            e = ENGINES[engine]
+            binp = drv.build_test(s, e["pkg"], e["bin"], tags=e.get("tags", "verif"), cgo=e.get("cgo", True))
+            sets = []
+            for k, gmp in enumerate(["1", "4", "16", "1"]):
+                res, fails = run_workers(binp, e["test"], prop, seed, n, 1200, os.path.join(s, "st-%s-%d" % (engine, k)),
+                                         extra_env={"GOMAXPROCS": gmp, "VERIF_MINIMIZE": "0"}, workers=[14, 5, 2, 9][k])
+                sets.append({r["index"]: (r["log_hash"], r["trace_hash"]) for r in res})
+            div = [i for i in sorted(sets[0]) if any(st.get(i) != sets[0][i] for st in sets[1:])]
+            report["engines"][engine] = dict(compared=len(sets[0]), gomaxprocs=["1", "4", "16", "1"], worker_processes=[14, 5, 2, 9], diverged_indices=div)
+            bad += len(div)
+    finally:
+        drv.cleanup(s)
+    os.makedirs(os.path.join(VERIF, "selftest"), exist_ok=True)
+    json.dump(report, open(os.path.join(VERIF, "selftest", prop + ".json"), "w"), indent=1)
+    print(json.dumps(report))
+    return 2 if bad else 0
